@@ -204,3 +204,73 @@ func HarnessC14InFlight() {
 	vObserve("n", int64(len(p)))
 	vReach("end")
 }
+
+// ---- C14 with lines longer than the line reader's default limit (64 KiB) and the maxammosize
+// option: whatever the option makes of such a line, streaming and preload make the same of it
+// (same entries delivered, same ending), on every pass.
+func c14DrainConf(conf config.Config, file string, maxItems int) c08Result {
+	d, err := decoders.NewDecoder(conf, strings.NewReader(file))
+	vCheck("D0.decoder.created", err == nil)
+	p := &Provider{Config: conf, Decoder: d, Sink: make(chan decoders.DecodedAmmo)}
+	ctx, cancel := context.WithCancel(context.Background())
+	var res c08Result
+	var wg sync.WaitGroup
+	wg.Add(1)
+	go func() {
+		defer wg.Done()
+		res.runErr = p.Run(ctx, core.ProviderDeps{Log: zap.NewNop()})
+		res.done = true
+	}()
+	for {
+		a, ok := <-p.Sink
+		if !ok {
+			break
+		}
+		res.tags = append(res.tags, a.Tag())
+		if len(res.tags) >= maxItems {
+			cancel()
+			break
+		}
+	}
+	wg.Wait()
+	cancel()
+	return res
+}
+
+func HarnessC14LongLines() {
+	dec := []config.DecoderType{config.DecoderURI, config.DecoderURIPost}[vConcretize(vNondetInt("format", 0, 1))]
+	long := 70000
+	if !vNondetBool("overTheDefaultLimit") {
+		long = 3000
+	}
+	maxSize := 0
+	if vNondetBool("maxAmmoSizeSet") {
+		maxSize = 200000
+	}
+	passes := uint(vConcretize(vNondetInt("passes", 1, 2)))
+	path := "/" + strings.Repeat("a", long)
+	file := "/a t1\n" + path + " t2\n"
+	if dec == config.DecoderURIPost {
+		file = "1 /a t1\nx\n0 " + path + " t2\n\n"
+	}
+	mk := func(preload bool) config.Config {
+		return config.Config{Decoder: dec, Passes: passes, Preload: preload, MaxAmmoSize: maxSize}
+	}
+	s := c14DrainConf(mk(false), file, 100)
+	p := c14DrainConf(mk(true), file, 100)
+	vCheck("P2.long.same.ending", (s.runErr == nil) == (p.runErr == nil))
+	if s.runErr == nil && p.runErr == nil {
+		vCheck("P1.long.same.length", len(s.tags) == len(p.tags))
+	} else {
+		// a file that cannot be read fails the run either way; preload notices before the first
+		// entry is handed out, streaming when it gets there: what preload delivered is a prefix
+		vCheck("P1.long.failed.preload.delivers.no.more", len(p.tags) <= len(s.tags))
+	}
+	vCheck("P2.both.finish", s.done && p.done)
+	if long <= 60000 {
+		vCheck("P4.long.everything.delivered", len(s.tags) == 2*int(passes) && s.runErr == nil)
+	}
+	vObserve("n", int64(len(s.tags)))
+	vObserve("np", int64(len(p.tags)))
+	vReach("end")
+}
